@@ -11,12 +11,14 @@ import (
 	"fmt"
 	"hash/crc32"
 	"io"
+	"io/fs"
 	"os"
 	"path/filepath"
 	"sort"
 	"strconv"
 	"strings"
 	"sync"
+	"time"
 
 	"golang.org/x/mod/module"
 	"golang.org/x/mod/sumdb/dirhash"
@@ -850,42 +852,72 @@ func rawZipPart(r *fw.Run) {
 		{{"only", strings.Repeat("0123456789", 7000)}},
 		{},
 	}
-	r.Bounds["raw_archives"] = len(lists) * 2
+	// what an entry's header says besides its name: the hash is over names and bytes only, so none of
+	// this may change it (an entry flagged as a directory, a link or a device still has its bytes)
+	attrs := []struct {
+		name string
+		set  func(h *zip.FileHeader)
+	}{
+		{"plain", func(h *zip.FileHeader) {}},
+		{"mode-dir", func(h *zip.FileHeader) { h.SetMode(fs.ModeDir | 0o755) }},
+		{"msdos-dir", func(h *zip.FileHeader) { h.CreatorVersion = 0; h.ExternalAttrs = 0x10 }},
+		{"mode-symlink", func(h *zip.FileHeader) { h.SetMode(fs.ModeSymlink | 0o777) }},
+		{"mode-device", func(h *zip.FileHeader) { h.SetMode(fs.ModeDevice | 0o600) }},
+		{"mode-0", func(h *zip.FileHeader) { h.SetMode(0) }},
+		{"mode-setuid-x", func(h *zip.FileHeader) { h.SetMode(fs.ModeSetuid | 0o755) }},
+		{"modified-1980", func(h *zip.FileHeader) { h.Modified = time.Date(1980, 1, 1, 0, 0, 0, 0, time.UTC) }},
+		{"modified-2100", func(h *zip.FileHeader) { h.Modified = time.Date(2100, 6, 1, 0, 0, 0, 0, time.FixedZone("x", 3600)) }},
+		{"comment", func(h *zip.FileHeader) { h.Comment = "go.mod" }},
+		{"extra", func(h *zip.FileHeader) { h.Extra = []byte{0xfe, 0xca, 2, 0, 1, 2} }},
+		{"non-utf8-flag", func(h *zip.FileHeader) { h.NonUTF8 = true }},
+	}
+	r.Bounds["raw_archives"] = len(lists) * 2 * len(attrs) * 2
 	for li, es := range lists {
 		for _, method := range []uint16{zip.Store, zip.Deflate} {
-			var buf bytes.Buffer
-			zw := zip.NewWriter(&buf)
-			for _, e := range es {
-				w, err := zw.CreateHeader(&zip.FileHeader{Name: e.name, Method: method})
-				if err == nil {
-					w.Write([]byte(e.data))
+			for ai, at := range attrs {
+				for which := 0; which < 2; which++ { // 0: every entry carries the attribute, 1: only the last one
+					if ai == 0 && which == 1 {
+						continue
+					}
+					var buf bytes.Buffer
+					zw := zip.NewWriter(&buf)
+					for ei, e := range es {
+						h := &zip.FileHeader{Name: e.name, Method: method}
+						if which == 0 || ei == len(es)-1 {
+							at.set(h)
+						}
+						w, err := zw.CreateHeader(h)
+						if err == nil {
+							w.Write([]byte(e.data))
+						}
+					}
+					zw.Close()
+					zp := filepath.Join(scratch, fmt.Sprintf("raw-%d-%d-%d-%d.zip", li, method, ai, which))
+					os.WriteFile(zp, buf.Bytes(), 0o644)
+					got, err := dirhash.HashZip(zp, dirhash.Hash1)
+					os.Remove(zp)
+					l.States++
+					l.Execs++
+					l.Transitions++
+					// the documented summary, one line per listed entry
+					var lines []string
+					for _, e := range es {
+						sum := sha256.Sum256([]byte(e.data))
+						lines = append(lines, fmt.Sprintf("%x  %s\n", sum, e.name))
+					}
+					sort.Slice(lines, func(i, j int) bool { return lines[i][66:] < lines[j][66:] })
+					h := sha256.Sum256([]byte(strings.Join(lines, "")))
+					want := "h1:" + base64.StdEncoding.EncodeToString(h[:])
+					if err != nil || got != want {
+						var names []string
+						for _, e := range es {
+							names = append(names, e.name)
+						}
+						r.Violation(fmt.Sprintf("rawzip:%d:%d:%s:%d", li, method, at.name, which), fmt.Sprintf("HashZip of a raw archive with entries %q (header attribute %s on %s) = %s, %v; one summary line per listed entry gives %s", names, at.name, []string{"every entry", "the last entry"}[which], got, err, want), caseT{Kind: "rawzip", Calls: names})
+					} else {
+						l.Nontrivial++
+					}
 				}
-			}
-			zw.Close()
-			zp := filepath.Join(scratch, fmt.Sprintf("raw-%d-%d.zip", li, method))
-			os.WriteFile(zp, buf.Bytes(), 0o644)
-			got, err := dirhash.HashZip(zp, dirhash.Hash1)
-			os.Remove(zp)
-			l.States++
-			l.Execs++
-			l.Transitions++
-			// the documented summary, one line per listed entry
-			var lines []string
-			for _, e := range es {
-				sum := sha256.Sum256([]byte(e.data))
-				lines = append(lines, fmt.Sprintf("%x  %s\n", sum, e.name))
-			}
-			sort.Slice(lines, func(i, j int) bool { return lines[i][66:] < lines[j][66:] })
-			h := sha256.Sum256([]byte(strings.Join(lines, "")))
-			want := "h1:" + base64.StdEncoding.EncodeToString(h[:])
-			if err != nil || got != want {
-				var names []string
-				for _, e := range es {
-					names = append(names, e.name)
-				}
-				r.Violation(fmt.Sprintf("rawzip:%d:%d", li, method), fmt.Sprintf("HashZip of a raw archive with entries %q = %s, %v; one summary line per listed entry gives %s", names, got, err, want), caseT{Kind: "rawzip", Calls: names})
-			} else {
-				l.Nontrivial++
 			}
 		}
 	}
